@@ -404,7 +404,14 @@ func (s *c24Session) observe(ok bool, withProbe bool) (string, string, tvalGo, p
 		CZ(int64(f.NegativeTTL)), dir, CZ(int64(f.PoolWorkers)), lim)
 	var pr []uint64
 	if withProbe {
-		pr = s.probe()
+		if t.to == nil || t.to[8] <= 0 || t.to[0] <= 0 || t.to[1] <= 0 || t.to[2] <= 0 || t.num[0] <= 0 || t.num[7] <= 0 {
+			// the report itself already violates the property (nil / non-positive timeouts, transfer size or worker
+			// count); a request would dereference the nil Timeouts inside a server goroutine and take the driver
+			// down with it, so the probe is recorded as "no reply" instead of being sent
+			pr = []uint64{999, 999, 999}
+		} else {
+			pr = s.probe()
+		}
 	}
 	coq := fmt.Sprintf("(mkObs %s %s %s %s %s)", CBool(ok), t.coq(), p.coq(), comp, CNs(pr))
 	txt := fmt.Sprintf("ok=%v report{%s | %s} inforce{attr=%d/%d neg=%v/%d dir=%v(%d,%d,%d) pool=%d limiter=%s} probe(LOOKUP,READ,WRITE)=%v",
